@@ -462,6 +462,8 @@ func (u *Unit) verifyRoot() {
 		switch g.Sort {
 		case "bool":
 			gs = SBool
+		case "string":
+			gs = SStr
 		case "loc->int":
 			gs = ArraySort(SLoc, SInt)
 		case "loc->bool":
